@@ -211,6 +211,8 @@ fn atom(u: &mut Unstructured, kind: char, min: i64, max: i64) -> arbitrary::Resu
         4 => max - 1,
         5 => *u.choose(&[0i64, 1, (1 << 31) - 1, 1 << 31, (1 << 32) - 1, -1, 1_193_046, 71_582_788, 4_294_967_296 / 60 + 1, 4_294_967_296 / 3600 + 1])?,
         6 => *u.choose(&[tmin, tmax, tmin + 1, tmax - 1])?,
+        9 if kind == 'n' => ((u.int_in_range(1..=4i64)? << 32).wrapping_mul(1_000_000_000)).wrapping_add(u.range_i64(0, 90_000)? * 1_000_000_000),
+        9 if kind == 'u' => ((u.int_in_range(1..=3i64)? << 30) + u.range_i64(0, 90_000)?).min(tmax),
         7 => u.range_i64(tmin, tmax)?,
         _ => u.range_i64(min, max)?,
     };
@@ -414,5 +416,5 @@ impl Prop for Ctors {
 
 pub fn run(env: &mut Env) {
     let t = env.thorough();
-    env.run_random::<Ctors>(if t { 40_000_000 } else { 2_000_000 });
+    env.run_random::<Ctors>(if t { 40_000_000 } else { 4_000_000 });
 }
